@@ -6,6 +6,29 @@ PROPS = ['C%02d' % i for i in range(1, 21)]
 BASELINE = "cd /repo && /venv/bin/python -m pytest -ra -q -p no:cacheprovider --timeout=900 --continue-on-collection-errors"
 
 CLAIMED = {
+ 'C01': dict(
+    category='proof',
+    text="Rocq theorems C01_no_silent_success / C01_failure_is_explained about the executable model of solver.py (coq/Solver.v), for every "
+         "catalogue of reader-tree line definitions, every request, input store, answer function and EVERY rank function (attempt order): "
+         "solved=true implies nothing unimplemented, no waiter, nothing queued and every scheduled line has a value its definition reproduces; "
+         "otherwise every scheduled line without a value is named by a genuine diagnostic. Proved by an inductive invariant over the real "
+         "control flow (no bound). The model is tied to the code by executing both on generated catalogues (full traces compared); the "
+         "property's monitor also runs on the real solver over generated catalogues and real-form scenarios.",
+    design_ref='DESIGN.md §3, §4 C01',
+    note="Trusted: Coq kernel; hand-written model tied by differential execution (not by proof); line definitions as deterministic reader trees; "
+         "abort paths (exceptions leaving solve()) are outside 'reports success'. Print Assumptions: closed under the global context.",
+    technique='Rocq inductive invariant over the concrete solver model + differential correspondence with the real solver',
+ ),
+ 'C03': dict(
+    category='proof',
+    text="Rocq theorem C03_solution_fixed_point: in every completed run of the solver model (solved or not), each stored value equals what its "
+         "line definition yields on the final input/value stores - for every catalogue, request, rank (attempt order) and answer function. "
+         "Invariant i_sound preserved by every primitive move (value stored, wait registered, specs loaded, prompt answered, drains), using "
+         "monotonicity of reader programs. Tie: model vs real solver traces; monitor re-evaluates every stored line of real runs.",
+    design_ref='DESIGN.md §3, §4 C03',
+    note="Trusted as for C01. Print Assumptions: closed under the global context.",
+    technique='Rocq inductive invariant (run_mono) over the concrete solver model + differential correspondence',
+ ),
  'C07': dict(
     category='proof',
     text="Rocq theorem C07_exact_<year> (all five statuses, every income in whole cents in [0, $1e12]): the model of figure_tax regenerated "
